@@ -214,6 +214,9 @@ CONTROLS = [
     ('x18-comment-end-glued', 'X18', 'syn', 'ident-glued-after:comment-end', [(PPF,
         "            is_comment = false;\n            // The text before the comment is a run of its own, so that an\n            // identifier directly followed by the comment is still substituted.\n            ret.push(x);\n            x = String::from(\"\");\n            x.push(c);",
         "            is_comment = false;\n            x.push(c);", 1)]),
+    ('x18-block-comment-opens-inside-bq-string', 'X18', 'syn', 'comment-char-kept', [
+        (PPF, "    let mut is_comment = false;\n", "    let mut is_comment = false;\n    let mut is_block_comment = false;\n", 1),
+        (PPF, "        } else if is_comment {\n            continue;\n", "        } else if is_comment {\n            continue;\n        } else if is_block_comment {\n            x.push(c);\n            if x.len() > 3 && x.ends_with(\"*/\") {\n                is_block_comment = false;\n                ret.push(x);\n                x = String::from(\"\");\n            }\n        } else if c == '/' && iter.peek() == Some(&'*') && !is_string {\n            is_block_comment = true;\n            ret.push(x);\n            x = String::from(\"\");\n            x.push(c);\n", 1)]),
     ('x18-identifier-start-only', 'X18', 'syn', 'ident-glued-after', [(PPF, '            if is_ident != is_ident_prev {', '            if is_ident && !is_ident_prev {', 1)]),
     ('x18-last-run-dropped', 'X18', 'syn', 'last-run-lost', [(PPF, "        is_escaped = is_string && c == '\\\\' && !is_escaped;\n    }\n    ret.push(x);\n    ret", "        is_escaped = is_string && c == '\\\\' && !is_escaped;\n    }\n    ret", 1)]),
     ('x19-quote-rewrite-before-escaped-quote', 'X19', 'syn', 'rewrite-order', [(PPF,
